@@ -172,6 +172,28 @@ func c06Honest(r *mon.Run, cfg c06cfg, jr *rand.Rand) (*c06run, error) {
 	}
 	run.Attrs = all
 	issuer := gabi.NewIssuer(key.SK, pk, ctx)
+	if jr.IntN(3) == 0 {
+		// an issuer object with a history: it served another holder (other commitment, attributes, nonce) just before
+		otherU := new(big.Int).Exp(pk.S, randBig(jr, 300), pk.N)
+		otherAttrs := make([]*big.Int, len(all))
+		for i := range otherAttrs {
+			otherAttrs[i] = randBig(jr, 100)
+		}
+		for _, bl := range cfg.blind {
+			otherAttrs[bl] = nil
+		}
+		var otherW *revocation.Witness
+		if out.rev != nil {
+			if otherW, err = out.rev.NewWitness(); err != nil {
+				return nil, err
+			}
+			otherAttrs[len(otherAttrs)-1] = otherW.E
+		}
+		if _, e0 := issuer.IssueSignature(otherU, otherAttrs, otherW, randBig(jr, 80), cfg.blind); e0 != nil {
+			return nil, fmt.Errorf("IssueSignature (earlier holder on the same issuer object): %w", e0)
+		}
+		r.Add("issuer_objects_with_an_earlier_issuance", 1)
+	}
 	run.Sig, err = issuer.IssueSignature(run.Commit.U, all, run.Witness, n2, cfg.blind)
 	if err != nil {
 		return nil, fmt.Errorf("IssueSignature: %w", err)
